@@ -146,6 +146,14 @@ def sdmx_settings(kind):
         return S.SDMXGSettings([0, 1], 1)
     if kind == "SDMXG1":
         return S.SDMXG1Settings([0, 1], 1, 1)
+    # every power with every variant (value, radial-derivative 'd' and l=1 terms): each (power, variant) has its own
+    # tabulated uniform-gas constant
+    if kind == "SDMXG-all":
+        return S.SDMXGSettings([0, 1, 2], 3)
+    if kind == "SDMXG1-all":
+        return S.SDMXG1Settings([0, 1, 2], 3, 2)
+    if kind == "SDMX1-all":
+        return S.SDMX1Settings([0, 1, 2], 3)
     if kind == "SADM":
         return S.SADMSettings("smooth")
     if kind == "SDMXFull":
